@@ -757,7 +757,8 @@ for _r in ('R1-1', 'R1-2', 'R1-3', 'R1-4', 'R2-1', 'R2-2', 'R2-3', 'R2-4', 'R3-1
            'R6-1', 'R6-2', 'R6-3', 'R6-4', 'R7-1', 'R7-2', 'R7-3', 'R7-4', 'R8-1', 'R8-2', 'R8-3', 'R8-4', 'R9-1', 'R9-2', 'R9-3', 'R9-4',
            'R10-1', 'R10-2', 'R10-3', 'R10-4', 'R11-1', 'R11-2', 'R11-3', 'R11-4', 'R12-1', 'R12-2', 'R12-3', 'R12-4', 'R13-1', 'R13-2', 'R13-3', 'R13-4',
            'R14-1', 'R14-2', 'R14-3', 'R14-4', 'R15-1', 'R15-2', 'R15-3', 'R15-4', 'R16-1', 'R16-2', 'R16-3', 'R16-4', 'R17-1', 'R17-2', 'R17-3', 'R17-4',
-           'R18-1', 'R18-2', 'R18-3', 'R18-4', 'R19-1', 'R19-2', 'R19-3', 'R19-4', 'R20-1', 'R20-2', 'R20-3', 'R20-4'):
+           'R18-1', 'R18-2', 'R18-3', 'R18-4', 'R19-1', 'R19-2', 'R19-3', 'R19-4', 'R20-1', 'R20-2', 'R20-3', 'R20-4',
+           'R21-1', 'R21-2', 'R21-3', 'R21-4'):
     CORPUS.append({'id': 'S/' + _r + '-silent', 'props': ALL_PROPS, 'rule': None, 'expect': 'silent', 'edits': [],
                    'patch': 'seeded_benign/%s/patch.diff' % _r, 'tolerate_rekeyed': True})
 
@@ -795,6 +796,15 @@ CORPUS.append({'id': 'M/c10-chainmap-pop-outermost', 'props': ['C10'], 'rule': '
 CORPUS.append({'id': 'M/c10-chainmap-push-below', 'props': ['C10'], 'rule': 'C10.R1', 'expect': 'violation',
                'patch': 'seeded_benign/R18-4/patch.diff',
                'edits': [(SDP, "self._chain.maps.insert(0, scope)", "self._chain.maps.append(scope)")]})
+
+
+# ---- the counter read before it is written back (attribute values are followed through stores on a path)
+M('c01-threshold-compares-old-counter', 'C01', 'C01.R3', AST,
+  "        state.ops_evaluated += 1\n        if state.ops_evaluated >= state.max_ops_evaluated:",
+  "        old = state.ops_evaluated\n        state.ops_evaluated = old + 1\n        if old >= state.max_ops_evaluated:")
+B('c01-counter-in-a-local', 'C01', AST,
+  "        state.ops_evaluated += 1\n        if state.ops_evaluated >= state.max_ops_evaluated:",
+  "        new = state.ops_evaluated + 1\n        state.ops_evaluated = new\n        if new >= state.max_ops_evaluated:")
 
 B('c02-ply-built-in-helper-of-init', 'C02', edits=[
   (SQP, "        self.lex = lex.lex(\n            module=lexer,\n            optimize=True,\n            debug=False,\n            outputdir=output_dir)\n",
